@@ -96,6 +96,29 @@ func callsTo(f *lib.File, body ast.Node, suffixes ...string) []string {
 
 func main() {
 	lib.Main("C01", func(r lib.Repo, e *lib.Emitter) {
+		// ---- the hand-over of a token's queued LIDs to the merge
+		if f, err := r.Load("frac/active_lids.go"); err != nil {
+			e.Missing("active_lids.go", err)
+		} else if fd := f.Func("TokenLIDs", "getQueuedLIDs"); fd == nil {
+			e.Missing("getQueuedLIDsStmts", "TokenLIDs.getQueuedLIDs not found")
+		} else {
+			var evs []ev
+			ast.Inspect(fd.Body, func(n ast.Node) bool {
+				switch x := n.(type) {
+				case *ast.AssignStmt:
+					evs = append(evs, ev{x.Pos(), f.Render(x)})
+				case *ast.ReturnStmt:
+					evs = append(evs, ev{x.Pos(), f.Render(x)})
+				}
+				return true
+			})
+			e.Strs("getQueuedLIDsStmts", ordered(evs), "TokenLIDs.getQueuedLIDs: assignments and returns in source order")
+			if pd := f.Func("TokenLIDs", "PutLIDsInQueue"); pd != nil {
+				e.Strs("putLIDsStmts", callsTo(f, pd.Body, "append"), "TokenLIDs.PutLIDsInQueue: how the queue grows")
+			} else {
+				e.Missing("putLIDsStmts", "TokenLIDs.PutLIDsInQueue not found")
+			}
+		}
 		// ---- the store's Bulk handler chain
 		if f, err := r.Load("storeapi/grpc_bulk.go"); err != nil {
 			e.Missing("grpc_bulk.go", err)
@@ -317,5 +340,5 @@ func main() {
 				e.Strs("truncateTailCalls", nil, "Active.truncateTail does not exist")
 			}
 		}
-	}, "disk/doc_block.go", "frac/active_writer.go", "frac/file_writer.go", "frac/active.go", "storeapi/grpc_bulk.go", "fracmanager/fracmanager.go", "fracmanager/proxy_frac.go")
+	}, "disk/doc_block.go", "frac/active_writer.go", "frac/file_writer.go", "frac/active.go", "storeapi/grpc_bulk.go", "fracmanager/fracmanager.go", "fracmanager/proxy_frac.go", "frac/active_lids.go")
 }
